@@ -25,6 +25,8 @@ import (
 
 	errorsmod "cosmossdk.io/errors"
 
+	sdk "github.com/cosmos/cosmos-sdk/types"
+
 	"github.com/noble-assets/orbiter/v2/types/core"
 )
 
@@ -35,6 +37,10 @@ func (a *AmountDispatched) IsPositive() bool {
 func (a DispatchedAmountEntry) Validate() error {
 	if a.Denom == "" {
 		return errors.New("cannot set empty denom")
+	}
+
+	if err := sdk.ValidateDenom(a.Denom); err != nil {
+		return errorsmod.Wrap(err, "cannot set invalid denom")
 	}
 
 	if a.SourceId == nil {
